@@ -7,8 +7,9 @@ CONSTANT Sel
 TFeat1 == TF(KV("mod", "nm", FALSE), KV("form", "X1", TRUE), KV("fin", "f", FALSE))
 TFeat2 == TF(KV("mod", "nm", FALSE), KV("form", "base", FALSE), KV("fin", "f", FALSE))
 TFeat3 == TF(KV("mod", "nm", FALSE), KV("form", "base", FALSE), KV("fin", "t", FALSE))      \* differs from TFeat2 in the third pair only
+TFeat4 == TF(KV("case", "nm", FALSE), KV("mod", "base", FALSE), KV("fin", "f", FALSE))     \* the values of TFeat2 under other key names
 AtomsA == {Atom("S", NoF), Atom("S", UF("dcl")), Atom("NP", UF("X")), Atom("NP", UF("nb")), Atom(",", NoF),
-           Atom("S", TFeat1), Atom("S", TFeat2), Atom("S", TFeat3)}
+           Atom("S", TFeat1), Atom("S", TFeat2), Atom("S", TFeat3), Atom("S", TFeat4)}
 AtomsB == {Atom("S", UF("dcl")), Atom("S", NoF), Atom("NP", UF("nb")), Atom("S", TFeat1)}
 U == CASE Sel = "d1" -> CatsUpTo(1, AtomsA, Slashes)
        [] Sel = "d2" -> CatsUpTo(2, AtomsB, {"/", "\\"})
